@@ -146,6 +146,9 @@ var GsubSimple = []Simple{
 	{"GSUB4 AA->B B->C C->L (one-glyph ligatures behind a real one: not a range)", 4, func() []gtab.Subtable {
 		return []gtab.Subtable{&gtab.Gsub4_1{Cov: cov(GA, GB, GC), Repl: [][]gtab.Ligature{{{In: []glyph.ID{GA}, Out: GB}}, {{In: nil, Out: GC}}, {{In: nil, Out: GL}}}}}
 	}},
+	{"GSUB4 AB->Y B->M C->N L->X (three consecutive one-glyph ligatures behind a real one)", 4, func() []gtab.Subtable {
+		return []gtab.Subtable{&gtab.Gsub4_1{Cov: cov(GA, GB, GC, GL), Repl: [][]gtab.Ligature{{{In: []glyph.ID{GB}, Out: GY}}, {{In: nil, Out: GM}}, {{In: nil, Out: GN}}, {{In: nil, Out: GX}}}}}
+	}},
 	{"GSUB1.1 A-C -> B-L (three consecutive glyphs: written as a range)", 1, func() []gtab.Subtable {
 		return []gtab.Subtable{&gtab.Gsub1_1{Cov: coverage.Set{GA: true, GB: true, GC: true}, Delta: 1}}
 	}},
